@@ -223,6 +223,73 @@ def run(chk):
                 chk.notes.append(f'spec/libxml2 disagreement: {expr} on {doc}: libxml2={lroot.xpath(expr)} spec={want}')
         chk.nontrivial.add(repr(('xp1', expr, doc)))
     chk.distribution['xpath1 comparisons: libxml2 vs spec disagreements'] = lx_dis
+    # ---- 1d. XPath 1.0 arithmetic (section 3.5) over the same four object types: C07/XPath1Arith.v arith1 (number() of both operands,
+    # IEEE on the extended values); libxml2 as a second reading. Operands with the value -0 and the non-standard '1e1' are left out.
+    import math as _m
+    chk.prove(['theories/C07/XPath1Arith.v'], 'theories/C07/XPath1ArithProperties.v')
+    AOPS = ['+', '-', '*', 'div']
+
+    def ok_operand(x):
+        return '-0' not in x[0] and '1e1' not in x[0] and not any(t in ('-0', '1e1') for t in (x[2] or []))
+    acases = []
+    for _ in range(300 if quick else 15000):
+        a, b = operand(0), operand(1)
+        if ok_operand(a) and ok_operand(b):
+            acases.append((rng.randint(0, 3), a, b))
+    for o in range(4):     # fixed: an empty node-set on either side of every operator, zero divisors
+        acases += [(o, ('n0', 'ONodes []', []), ('1', 'ONum (NFin 1 1)', None)), (o, ('2', 'ONum (NFin 2 1)', None), ('n1', 'ONodes []', [])),
+                   (o, ('n0', 'ONodes []', []), ('n1', 'ONodes []', [])), (o, ('1', 'ONum (NFin 1 1)', None), ('0', 'ONum (NFin 0 1)', None)),
+                   (o, ('0', 'ONum (NFin 0 1)', None), ('0', 'ONum (NFin 0 1)', None)), (o, ('-1', 'ONum (NFin (-1) 1)', None), ('0', 'ONum (NFin 0 1)', None)),
+                   (o, ('true()', 'OBool true', None), ("'x'", f'OStr {slit("x")}', None))]
+    amodel = core.run_coq_cases('C07', 'From EP Require Import C15.Keys C07.Model C07.XPath1 C07.XPath1Arith.',
+                                [f'run_arith1 {o} ({a[1]}) ({b[1]})' for o, a, b in acases], chunk=500, tag='xp1a') if model_ok else [None] * len(acases)
+
+    def num_class(v):
+        # [kind, numerator, denominator] of a result of the implementation or of libxml2
+        if isinstance(v, list):
+            return ['sequence', len(v)]
+        v = _Fr(v) if not isinstance(v, float) else v
+        if isinstance(v, float):
+            if _m.isnan(v):
+                return [1, 0, 1]
+            if _m.isinf(v):
+                return [2, 0, 1] if v > 0 else [3, 0, 1]
+            v = _Fr(v)
+        return [0, v.numerator, v.denominator]
+
+    def close(x, y):
+        if x[0] != 0 or y[0] != 0:
+            return x == y
+        return abs(_Fr(x[1], x[2]) - _Fr(y[1], y[2])) <= _Fr(1, 10 ** 12) * max(1, abs(_Fr(y[1], y[2])))
+    la_dis = 0
+    for (o, a, b), mo in zip(acases, amodel):
+        chk.evaluations += 1
+        chk.count('xpath1-arith')
+        doc = '<r>' + ''.join(f'<n0>{t}</n0>' for t in (a[2] or [])) + ''.join(f'<n1>{t}</n1>' for t in (b[2] or [])) + '</r>'
+        expr = f'{a[0]} {AOPS[o]} {b[0]}'
+        desc = {'parser': 'XPath1Parser', 'expr': expr, 'doc': doc}
+        lroot = _LE.fromstring(doc)
+        try:
+            got = num_class(select(lroot, expr, parser=_P1))
+        except ElementPathError as e:
+            got = ['error ' + str(e.code)]
+        except Exception as e:
+            chk.violation('foreign-exception', desc, repr(e)[:200])
+            continue
+        if mo is None:
+            continue
+        want = list(mo)
+        if not close(got, want):
+            chk.corr_fail.append((desc, got, want))
+            chk.violation('impl-vs-spec', desc, {'impl [kind, numerator, denominator] (kind 0 finite, 1 NaN, 2 INF, 3 -INF)': got, 'spec': want})
+        if not close(num_class(lroot.xpath(expr)), want):
+            la_dis += 1
+            if len(chk.notes) < 8:
+                chk.notes.append(f'spec/libxml2 disagreement: {expr} on {doc}: libxml2={lroot.xpath(expr)} spec={want}')
+        chk.nontrivial.add(repr(('xp1a', expr, doc)))
+    chk.distribution['xpath1 arithmetic: libxml2 vs spec disagreements'] = la_dis
+    if la_dis:
+        chk.obligations.append({'name': 'specification-agrees-with-libxml2(xpath1 arithmetic)', 'ok': False, 'detail': '; '.join(chk.notes[:3])})
     if lx_dis:
         chk.obligations.append({'name': 'specification-agrees-with-libxml2(xpath1 comparisons)', 'ok': False, 'detail': '; '.join(chk.notes[:3])})
 
